@@ -151,7 +151,7 @@ func init() {
 		select {
 		case <-closed:
 			t.S("closeok")
-		case <-time.After(120 * time.Second):
+		case <-time.After(wd(120 * time.Second)):
 			t.S("closeHANG")
 		}
 		time.Sleep(20 * time.Millisecond)
